@@ -105,3 +105,13 @@ def load_corpus(prop: str) -> List[Dict[str, Any]]:
         j["_path"] = p
         out.append(j)
     return out
+
+
+def scaled(n: int) -> int:
+    """VERIF_FRONT_SCALE (default 1) shrinks the generated streams for experiments on a loaded
+    machine; streams are seeded per index, so a smaller run is a prefix of the full one."""
+    try:
+        f = float(os.environ.get("VERIF_FRONT_SCALE", "1"))
+    except ValueError:
+        f = 1.0
+    return max(1, int(n * f))
